@@ -2,6 +2,8 @@
 //!   routinator <args…>   the routinator command line (same steps as routinator's main.rs), in a
 //!                        process of its own because logging can be set up only once per process.
 //!   bytes-worker …       C27: executes decoders on corrupt input (allocation cap, CPU budget, panics reported)
+//!   crash-victim <job>   one engine run over the directories of an E-rpki world (see rv::crash);
+//!                        killed at a numbered kill point through ROUTINATOR_VERIF_KILL_AT.
 #[global_allocator]
 static ALLOC: rv::bw::TrackAlloc = rv::bw::TrackAlloc;
 
@@ -10,6 +12,7 @@ fn main() {
     match args.get(1).map(|s| s.as_str()) {
         Some("routinator") => std::process::exit(rv::fmtx::child_routinator(&args[2..])),
         Some("bytes-worker") => rv::c27::child_main(&args[2..]),
+        Some("crash-victim") => std::process::exit(rv::crash::victim_main(&args[2..])),
         _ => {
             eprintln!("usage: rvchild <role> [args…]");
             std::process::exit(2);
